@@ -49,12 +49,9 @@ func (o *Obligation) smtTextS(extra []string, light bool) string {
 	if o.Cover {
 		// vacuity guards are satisfiability queries: global quantified axioms are left out
 		// (they only constrain uninterpreted functions) so that solvers can build a model
-		save := g.axioms
-		g.axioms = nil
-		sb.WriteString(g.preamble())
-		g.axioms = save
+		sb.WriteString(g.preambleOpt(false))
 	} else {
-		sb.WriteString(g.preamble())
+		sb.WriteString(g.preambleOpt(true))
 	}
 	for _, f := range g.facts[:o.NFacts] {
 		if light && hasQuant(f) {
